@@ -5,7 +5,8 @@
 
    The property as written is FALSE for the pinned checker (C34_*_refuted below, known_findings/C34.json):
    the visitor never looks for effects in the children of what it flags, flags `f!(..)` calls that sit
-   under an error-catching `??`, and forgets that a value is expected after it has visited a closure.
+   under an error-catching `??`, forgets that a value is expected after it has visited a closure, and treats
+   the left operand of `||` / `&&` / `??` as unused although its value decides whether the right operand runs.
    What holds, and is proved for every program, state and stdlib semantics F:
      - a flagged expression is a literal, an object, or a closure-free call of a function outside
        SIDE_EFFECT_FUNCTIONS (C34_flagged_shape);
@@ -188,6 +189,22 @@ Proof.
   vm_compute. repeat split; auto; discriminate.
 Qed.
 Print Assumptions C34_closure_stale_refuted.
+
+(* `{ .a; null } || { .x = 1 }` as a statement: the literal null - the value of the left operand of `||` - is reported
+   unused; with it the right operand runs, without it (the block is then `{ .a }`) it does not *)
+Theorem C34_short_circuit_refuted :
+  exists (a : pexpr) (rhs : pexpr) (s : state),
+    In ([0; 0; 1]%nat, WLit) (check_program [POp OOr (PBlock [a; PLit VNull]) rhs; PLit (VInt 9)]) /\ faults s = [] /\
+    fst (run_inst (elab_prog [POp OOr (PBlock [a; PLit VNull]) rhs; PLit (VInt 9)]) s)
+    = fst (run_inst (elab_prog [POp OOr (PBlock [a]) rhs; PLit (VInt 9)]) s) /\
+    ev (snd (run_inst (elab_prog [POp OOr (PBlock [a; PLit VNull]) rhs; PLit (VInt 9)]) s))
+    <> ev (snd (run_inst (elab_prog [POp OOr (PBlock [a]) rhs; PLit (VInt 9)]) s)).
+Proof.
+  exists (PQExt PEvent (fld "a")), (PBlock [PAssign (TExt PEvent (fld "x")) (PLit (VInt 1))]),
+         (st0 [] (VObj [(bs "a", VBool true)]) (VObj [])).
+  vm_compute. repeat split; auto; discriminate.
+Qed.
+Print Assumptions C34_short_circuit_refuted.
 
 (* ---------- the hypotheses are satisfiable ---------- *)
 
